@@ -75,6 +75,7 @@ class State:
 
     def __init__(self) -> None:
         self.configured = False
+        self.corrupt = False                    # coredata.dat damaged: the next --reconfigure regenerates from the records
         self.spec: T.Dict[str, dict] = {}       # 'top:n' / 'sub:n' -> spec the option was last (re)read with
         self.val: T.Dict[str, str] = {}         # own value of every existing project option
         self.override: T.Dict[str, str] = {}    # 'sub:n' -> value set for the subproject only (yielding option / builtin)
@@ -234,6 +235,14 @@ def candidates(st: State, files: T.Dict[str, T.Dict[str, dict]], cmd: dict) -> T
         else:
             out.append(s)
 
+    if st.corrupt:
+        if op in ('setup', 'configure'):
+            return [FAIL]             # the damaged file is reported; only --reconfigure / --wipe regenerate
+        # regeneration = fresh configuration from the recorded command lines plus the new arguments
+        rec = [[k, v] for k, v in st.rec.items() if k not in dict(D)] + D
+        add(fresh(files, rec, False))
+        add(fresh(files, rec, True))
+        return out
     if op == 'setup' and st.configured:
         op = 'configure'          # "Directory already configured": the -D arguments are applied as by `meson configure`
     if op in ('setup', 'reconfigure') and not st.configured:
